@@ -2,6 +2,7 @@ import XalanModel.C02.CompileProofs
 import XalanModel.C02.CompareProofs
 import XalanModel.C02.Predicates
 import XalanModel.C02.Doc
+import XalanModel.C02.AxesProofs
 /-!
 # C02 — XPath 1.0 expressions evaluate to the value the Recommendation defines
 
@@ -145,6 +146,19 @@ example : ∃ sem : PredSem (Option Nat × Bool),
   ⟨{ isNum := fun v => v.1.isSome, numEqPos := fun v p => v.1 == some p, toBool := fun v => match v.1 with | some n => n != 0 | none => v.2,
      pos_true := by intro v p h1 h2 h3; rcases v with ⟨_ | n, b⟩ <;> simp_all; omega }, by decide⟩
 
+/-- **`axes_spec`, descendant and descendant-or-self, all documents.**  For every document table satisfying the
+decidable well-formedness predicate `Doc.WF` (nested subtree intervals, attributes directly after their element, the
+DOM navigation functions consistent with the intervals, ancestors = interval containment — evaluated by `xm_c02` on
+every document of the correspondence run) and every context node, attribute contexts included, the pre-order walk of
+`XPath::findDescendants` (first child, else next sibling, else climb to the parent until the context is reached)
+returns exactly the nodes of the axis, in document order.
+`_partial`: the same statement for `findFollowing` / `findPreceeding` and the sibling/child/attribute chains is not
+proved in general (kernel-evaluated on the sample document below and tied by the evaluation correspondence); that every
+pre-order table satisfies `WF` is checked per document, not proved. -/
+theorem axes_spec_descendant_partial (d : Doc) (hw : d.WF) (n : Nat) (hn : n < d.length) (orSelf : Bool) :
+    d.findDescendants orSelf n = d.axis (if orSelf then .descendantOrSelf else .descendant) n :=
+  Doc.findDescendants_spec d hw n hn orSelf
+
 /-- `axes_spec`, **test only** (kernel-evaluated on one 13-node document with attributes, text, comment,
 nested elements; all 13 axes × all 13 context nodes, attribute contexts included): each `find*` walk
 returns exactly the nodes of the axis in proximity order.  The general theorem over all documents is
@@ -160,5 +174,8 @@ theorem axes_spec_sample_partial :
     (([.ancestor, .ancestorOrSelf, .attribute, .child, .descendant, .descendantOrSelf, .following, .followingSibling,
        .parent, .preceding, .precedingSibling, .self, .namespace] : List Axis).all fun a =>
       (List.range 13).all fun n => axesSampleDoc.find a n == axesSampleDoc.axis a n) = true := by decide
+
+/-- non-vacuity of `axes_spec_descendant_partial`: the sample document is well-formed -/
+example : axesSampleDoc.WF := Doc.wf_of_wfB _ (by decide)
 
 end XalanModel.Props.C02
